@@ -30,7 +30,7 @@ def _trace_sig(t, bad, l):
         return {}
     if bad["a"] == "post":
         return {"what": "post-outcome", "obs_ran": bad["obs"]["ran"], "obs_status": bad["obs"]["status"],
-                "carrier": bad["args"][2], "method": bad["args"][3]}
+                "carrier": bad["args"][2], "method": bad["args"][3], "handler": (bad["args"] + ["plain"])[4]}
     return {"what": "issuance", "outver": bad["args"][1]}
 
 
@@ -49,12 +49,12 @@ def run(ctx):
     ctx.replay(scen, X.replay_state, nontrivial=lambda e, p: True)
     ctx._phase("replay", t0)
     ctx.cov["exhaustive"] = True
-    n = ctx.pick(150, 5000)
+    n = ctx.pick(100, 5000)
     t0 = time.time()
-    traces = framework.pool_map(X.random_session, [(i + 1, ctx.seed * 1000003 + i, ctx.pick(25, 40)) for i in range(n)])
+    traces = framework.pool_map(X.random_session, [(i + 1, ctx.seed * 1000003 + i, ctx.pick(20, 40)) for i in range(n)])
     ctx._phase("record", t0)
     t0 = time.time()
-    ctx.validate("websec", "Trace_Xsrf", "Trace_Xsrf.cfg", traces, sig_fn=_trace_sig)
+    ctx.validate("websec", "Trace_Xsrf", "Trace_Xsrf.cfg", traces, sig_fn=_trace_sig, shards=ctx.pick(6, None))
     ctx._phase("validate", t0)
     ctx.cov["rule"] = ("scenario = (cookie string, token string, carrier, method) or (cookie string, output version, mask, "
                        "clock) as enumerated by TLC, each one real HTTP request; distinct = distinct scenario records")
